@@ -29,7 +29,8 @@ def make_script(cfg, rng):
         L.append(f"lcdp{i} = LCD(rs={nxt()}, en={nxt()}, d4={nxt()}, d5={nxt()}, d6={nxt()}, d7={nxt()}" + (f", backlight_pin={nxt()}" if rng.random() < 0.3 else "") + ")")
         names.append(("lcd", f"lcdp{i}"))
     for i in range(n_i2c):
-        L.append(f"lcdi{i} = LCD(i2c_addr={0x20 + i}, cols={rng.choice([16, 20])}, rows={rng.choice([2, 4])})")
+        addr = rng.choice([str(0x20 + i), "0", "0x00", "0x27 - 39", hex(0x3F - i)])
+        L.append(f"lcdi{i} = LCD(i2c_addr={addr}, cols={rng.choice([16, 20])}, rows={rng.choice([2, 4])})")
         names.append(("lcd", f"lcdi{i}"))
     for i in range(n_servo_pre):
         L.append(f"sv{i} = Servo({nxt()})")
